@@ -58,8 +58,9 @@ Theorem C11_ord_measure_decreases : S_ord_measure_decreases.
 Proof. exact ord_measure_decreases. Qed.
 Print Assumptions C11_ord_measure_decreases.
 
-(** no deadlock when the caller is not a worker of the global pool, or that pool has at
-    least two threads *)
+(** no deadlock for the code as it is now: every kind of caller (external thread, worker
+    of the global pool, worker of a custom pool of any size), every global pool size >= 1,
+    every number of consumers >= 1, every input *)
 Theorem C11_ord_progress : S_ord_progress.
 Proof. exact ord_progress. Qed.
 Print Assumptions C11_ord_progress.
@@ -68,26 +69,46 @@ Theorem C11_ord_stuck_spec : S_ord_stuck_spec.
 Proof. exact ord_stuck_spec. Qed.
 Print Assumptions C11_ord_stuck_spec.
 
-(** the property is REFUTED for the ordered variant when the caller is the only thread of
-    the global pool: a reachable non-final state without transitions ... *)
-Theorem C11_ord_deadlock_refuted : S_ord_deadlock_refuted.
-Proof. exact ord_deadlock_refuted. Qed.
-Print Assumptions C11_ord_deadlock_refuted.
-
-(** ... and for every input and every number of consumers no final state is reachable *)
-Theorem C11_ord_deadlock_all : S_ord_deadlock_all.
-Proof. exact ord_deadlock_all. Qed.
-Print Assumptions C11_ord_deadlock_all.
-
 (** final states have drained a permutation of the input: the value is the in-order fold *)
 Theorem C11_ord_machine_value : S_ord_machine_value.
 Proof. exact ord_machine_value. Qed.
 Print Assumptions C11_ord_machine_value.
 
-(** under every schedule: termination with the in-order fold in the complement class ... *)
+(** under every schedule, for every kind of caller and every global pool size >= 1:
+    termination with the in-order fold *)
 Theorem C11_ord_run_total : S_ord_run_total.
 Proof. exact ord_run_total. Qed.
 Print Assumptions C11_ord_run_total.
+
+(** a worker of a pool of size 1 (global or custom) folds the items in iterator order *)
+Theorem C11_ord_run_seq : S_ord_run_seq.
+Proof. exact ord_run_seq. Qed.
+Print Assumptions C11_ord_run_seq.
+
+(** * The ordered variant under the rule the code had BEFORE the repair of defect 7b
+      ([o_fixed k = false], [pmf_ord_run_prefix]: no sequential branch) *)
+
+(** no deadlock when the caller is not a worker of the global pool, or that pool has at
+    least two threads *)
+Theorem C11_ord_progress_prefix : S_ord_progress_prefix.
+Proof. exact ord_progress_prefix. Qed.
+Print Assumptions C11_ord_progress_prefix.
+
+(** the property was REFUTED when the caller is the only thread of the global pool: a
+    reachable non-final state without transitions ... *)
+Theorem C11_ord_deadlock_refuted : S_ord_deadlock_refuted.
+Proof. exact ord_deadlock_refuted. Qed.
+Print Assumptions C11_ord_deadlock_refuted.
+
+(** ... and for every input and every number of consumers no final state was reachable *)
+Theorem C11_ord_deadlock_all : S_ord_deadlock_all.
+Proof. exact ord_deadlock_all. Qed.
+Print Assumptions C11_ord_deadlock_all.
+
+(** under every schedule: termination with the in-order fold in the complement class ... *)
+Theorem C11_ord_run_total_prefix : S_ord_run_total_prefix.
+Proof. exact ord_run_total_prefix. Qed.
+Print Assumptions C11_ord_run_total_prefix.
 
 (** ... and a deadlock in the defect class, for every input length and schedule *)
 Theorem C11_ord_run_deadlock : S_ord_run_deadlock.
@@ -121,10 +142,32 @@ Example C11_reorder :
   = ([], 5, fold_left (fun a r => a * 31 + r) [10; 11; 12; 13; 14] 7).
 Proof. vm_compute. reflexivity. Qed.
 
-(** the ordered variant: the empty input deadlocks when the caller is the only global
-    thread, and terminates as soon as there is a second one *)
-Example C11_ord_empty_deadlock : pmf_ord_run 4 1 None true 0 [] = ODeadlock.
+(** the ordered variant called by the only thread of the global pool: the empty input
+    deadlocked before the repair; now the sequential branch is taken.  A second global
+    thread, a custom pool, an external caller: the concurrent machine terminates *)
+Example C11_ord_empty_deadlock_prefix : pmf_ord_run_prefix 1 OGlobalWorker None 0 [] = ODeadlock.
 Proof. vm_compute. reflexivity. Qed.
 
-Example C11_ord_two_threads : pmf_ord_run 4 2 None true 3 [] = OTerminated [0; 1; 2].
+Example C11_ord_empty_now : pmf_ord_run 1 OGlobalWorker None 0 [] = OTerminated [].
+Proof. vm_compute. reflexivity. Qed.
+
+Example C11_ord_one_thread_now :
+  pmf_ord_run 1 OGlobalWorker (Some 5%nat) 5 [3;1;4]%nat = OTerminated [0; 1; 2; 3; 4].
+Proof. vm_compute. reflexivity. Qed.
+
+Example C11_ord_two_threads : pmf_ord_run 2 OGlobalWorker None 3 [] = OTerminated [0; 1; 2].
+Proof. vm_compute. reflexivity. Qed.
+
+(** caller in a custom pool of 4 threads, global pool of ONE thread: four consumers take
+    turns on the only global worker; out-of-order arrivals *)
+Example C11_ord_custom_over_global_one :
+  pmf_ord_run 1 (OCustomWorker 4) None 6 [5;2;7;1;1;8;3;2;9;4;6]%nat = OTerminated [0; 1; 2; 3; 4; 5]
+  /\ seq_branch 1 (OCustomWorker 4) = false /\ seq_branch 16 (OCustomWorker 1) = true
+  /\ seq_branch 1 OExternal = false /\ seq_branch 1 OGlobalWorker = true.
+Proof. vm_compute. repeat split; reflexivity. Qed.
+
+(** three consumers on three global workers, external caller: results arrive out of order *)
+Example C11_ord_out_of_order :
+  pmf_ord_run 3 OExternal None 6 [5;2;7;1;1;8;3;2;9;4;6;0;3;5;1;2;2;7]%nat
+  = OTerminated [1; 0; 2; 3; 4; 5].
 Proof. vm_compute. reflexivity. Qed.
